@@ -26,82 +26,7 @@ ASSUMPTIONS = ASSUME_SIM + ["descendants are taken from the definition graph (co
                             "if the clean twin itself ends failed only the status is compared"]
 
 
-def descendants(m, roots):
-    seen = set()
-    q = list(roots)
-    while q:
-        x = q.pop()
-        if x in seen or x not in m.tasks:
-            continue
-        seen.add(x)
-        for tr in m.tasks[x].trans:
-            q.extend(tr.targets())
-    return seen
-
-
-class RerunMon(Monitor):
-    name = "rerunmon"
-
-    def on_init(self, run):
-        self.stats = dict(reruns_accepted=0, reruns_rejected=0, offers_after_rerun=0, reexecuted=0)
-        self.allowed = None
-        self.requested = None
-        self.completed_before = None
-
-    def on_call(self, run, ev):
-        if ev["op"] != "rerun":
-            return
-        if ev["exc"] is not None:
-            self.stats["reruns_rejected"] += 1
-            if canon(ev["pre"]) != canon(ev["post"]):
-                run.viol("C17", "rejected_rerun_changed_state", "rerun %r was rejected (%s) but the persisted state changed"
-                         % (ev["args"][0], type(ev["exc"]).__name__), subject="rerun")
-            return
-        self.stats["reruns_accepted"] += 1
-        # cause predicates of recorded defects, computed from what the harness reported before the request
-        led0 = getattr(run, "ledger", None)
-        reqs0 = ev["args"][0]
-        if led0 is not None and led0.enabled:
-            if reqs0 is None and led0.fail_cmds:
-                run.tags.add("rerun_default_after_fail_command")
-            if reqs0 is None and not led0.unhandled:
-                run.tags.add("rerun_nothing_to_rerun")
-        if ev["pre"]["status"] != "failed":
-            run.tags.add("rerun_nothing_to_rerun")
-        if reqs0 is not None:
-            pst = ev["pre"]["state"]
-            for t, r, ri in reqs0:
-                idx = pst["tasks"].get("%s__r%s" % (t, r))
-                if idx is not None and pst["sequence"][idx].get("status") == "succeeded":
-                    run.tags.add("rerun_of_succeeded_task")
-        if ev["post"]["status"] != "resuming":
-            run.viol("C17", "not_resuming_after_rerun", "status after an accepted rerun is %s" % ev["post"]["status"],
-                     subject=ev["post"]["status"])
-        pre = ev["pre"]["state"]
-        reqs = ev["args"][0]
-        led = getattr(run, "ledger", None)
-        if reqs is None:
-            roots = [r["id"] for r in pre["sequence"] if r.get("status") in ("failed", "timeout", "abandoned")]
-        else:
-            roots = [t for t, r, ri in reqs]
-        due = [s["id"] for s in pre["staged"]]
-        self.requested = set(roots)
-        m = run.model
-        self.allowed = descendants(m, list(roots) + due) if m is not None else None
-        self.completed_before = set(r["id"] for r in pre["sequence"] if r.get("status") == "succeeded")
-
-    def on_offer(self, run, ev, info, action, rec):
-        if self.allowed is None or not run.ctl["reruns"]:
-            return
-        self.stats["offers_after_rerun"] += 1
-        t = info["task"]
-        if t in self.requested:
-            self.stats["reexecuted"] += 1
-            run.notes["rerun_nontrivial"] = True
-        if t not in self.allowed:
-            kind = "rerun_repeated_completed_task" if t in self.completed_before else "rerun_offer_unjustified"
-            run.viol("C17", kind, "after the rerun of %s task %s was offered; it is neither requested, nor downstream of a "
-                     "requested task, nor work still due" % (sorted(self.requested), t), subject=t)
+from ovf.mon.rerun import RerunMon, descendants  # noqa: E402,F401
 
 
 def nontrivial(run, m):
@@ -109,7 +34,7 @@ def nontrivial(run, m):
 
 
 def extra_monitors():
-    return [RerunMon()]
+    return []
 
 
 RELABEL = {"stuck": ["C17", "stuck_after_rerun"], "offer_unknown_task": ["C17", "rerun_offered_engine_command"]}
@@ -129,7 +54,8 @@ def reruns(job):
         if not workloads.inspect_ok(wf):
             cnt("definitions_rejected_by_inspection")
             continue
-        case = dict(wf=wf, inputs=inputs, oseed=h64(job.get("gseed", 0), seed, "o") % 100000, p_fail=job.get("p_fail", 0.25))
+        case = dict(wf=wf, inputs=inputs, oseed=h64(job.get("gseed", 0), seed, "o") % 100000, p_fail=job.get("p_fail", 0.25),
+                    exotic=job.get("exotic", 0.3))
         pol = explore.Policy(pseed=h64(job.get("gseed", 0), seed, "p"), lazy_pct=[0, 40][seed % 2])
         rng = random.Random(h64(job.get("gseed", 0), seed, "rr"))
         # first run to a completed status; decides which request sets exist
@@ -170,6 +96,12 @@ def reruns(job):
         if len(failed) >= 2:
             sets.append(("subset", [(t, r, rng.random() < 0.3) for t, r in rng.sample(failed, rng.randint(2, len(failed)))]))
         ran = sorted(set((r["id"], r["route"]) for r in seqrecs if r["id"] in m.tasks))
+        okrecs = dict(((r["id"], r["route"]), r) for r in seqrecs if r.get("status") == "succeeded" and r["id"] in m.tasks)
+        for t, r in failed[:2]:
+            for src in m.inbound(t)[:2]:
+                cand = [k for k in okrecs if k[0] == src]
+                if cand:
+                    sets.append(("upstream_of_failed", [(cand[0][0], cand[0][1], False)]))
         never = [t for t in m.tasks if t not in set(x[0] for x in ran)]
         if never:
             sets.append(("never_ran", [(never[0], 0, False)]))
@@ -182,7 +114,7 @@ def reruns(job):
                 continue
             if label == "succeeded_task" and not reqs:
                 continue
-            ms = workloads.monitors(job.get("flags")) + [RerunMon()]
+            ms = workloads.monitors(job.get("flags"))
             run = explore.make_run(case, ms, model=m, label="rerun:" + label)
             explore.play_script(run, probe.script)
             led = workloads.mon(run, "ledger")
@@ -233,7 +165,12 @@ def reruns(job):
 
 def jobs(tier, seed):
     P = dict(p_intjoin=0.2, p_items=0.25, p_retry=0.1, p_fail_cmd=0.1, p_join=0.6, nmax=6)
-    return batches("reruns", scale(tier, 200, 5000), scale(tier, 12, 100), gen="mix", p_loop=0.2, P=P, gseed=seed, p_fail=0.25, name="reruns")
+    js = batches("reruns", scale(tier, 160, 5000), scale(tier, 10, 100), gen="mix", p_loop=0.2, P=P, gseed=seed, p_fail=0.25, name="reruns")
+    # join-free, with-items heavy definitions: outside the zones of the recorded rerun defects around joins
+    js += batches("reruns", scale(tier, 100, 3000), scale(tier, 10, 100), gen="mix", p_loop=0.2, gseed=seed + 1, p_fail=0.2,
+                  P=dict(P, p_join=0.0, p_items=0.5, p_fail_cmd=0.03, p_retry=0.05, nmax=5, max_do=2, max_trans=2, xs_max=2),
+                  name="reruns-no-joins")
+    return js
 
 
 def reach(m):
